@@ -34,9 +34,13 @@ def detB (nodes : List NType) (n : Nat) : Bool :=
       | .or cs => cs.countP (fun c => ev.getD c false) ≤ 1
       | _ => true
 
+/-- every literal leaf is a literal of a feature in 1..n -/
+def litRangeB (nodes : List NType) (n : Nat) : Bool :=
+  nodes.all fun nd => match nd with | .lit l => l != 0 && l.natAbs ≤ n | _ => true
+
 def structB (nodes : List NType) (n : Nat) : Bool :=
-  !nodes.isEmpty && topoB nodes && litnzB nodes && decomposableB nodes && smoothB nodes
-    && rootCompleteB nodes n
+  !nodes.isEmpty && topoB nodes && litnzB nodes && litRangeB nodes n && decomposableB nodes
+    && smoothB nodes && rootCompleteB nodes n
 
 def wfB (nodes : List NType) (n : Nat) : Bool := structB nodes n && detB nodes n
 
